@@ -103,12 +103,15 @@ pub fn main(a: Args) -> i32 {
     // the hub) may
     // `.copiarc` and `.copia-hooks/pre` START like the control directory `.copia` without being inside it: the hub lists
     // and serves them like any other file
-    let paths = ["a", "b", "d/x", "d/y", "e f", "d/z'q", "d", ".copiarc", ".copia-hooks/pre"];
+    let base_paths: Vec<String> = ["a", "b", "d/x", "d/y", "e f", "d/z'q", "d", ".copiarc", ".copia-hooks/pre"].iter().map(|s| s.to_string()).collect();
     let hub = format!("{}/HUB", absout);
     let mut id = 0usize;
     let mut nfail = 0u64;
     let mut distinct = std::collections::HashSet::new();
     for h in 0..nhist {
+        // every third history lives on paths drawn from the pool of hostile names (util::hostile_paths; no file/directory clash)
+        let hp = if h % 3 == 2 { hostile_paths(&mut r, 6) } else { vec![] };
+        let paths: Vec<&str> = if hp.len() == 6 { hp.iter().map(|x| x.as_str()).collect() } else { base_paths.iter().map(|x| x.as_str()).collect() };
         // initial hub tree
         let mut init = vec![];
         for p in &paths {
